@@ -170,7 +170,7 @@ func processRegexForCompare(ruleId string, chainOffset uint8, regex string, ctxt
 	}
 	if matches == nil || len(matches) > 1 {
 		logger.Error().Msgf("Failed to find rule file for rule id %s", ruleId)
-		return err
+		return fmt.Errorf("failed to find rule file for rule id %s", ruleId)
 	}
 
 	filePath := matches[0]
